@@ -2,13 +2,8 @@ UNIT = dict(
     id="c15_gambit_terminal",
     prelude=["floats.rs", "ideal.rs"],
     canary_use="broadcast use fl; broadcast use ideal; ax_obeys(); ax_rv_lits();",
-    # the constant-sum analysis (second traversal of get_global_info) is not under contract; its three
-    # payoff look-ups are pinned textually: they must read the SAME outcome table, by outcome number, that
-    # into_game_node reads (a change there is reported undecided, not passed)
-    expect=[("src/gambit.rs", r"\.zip\(outcomes\.get\(&terminal\.outcome\(\)\)\.unwrap\(\)\)"),
-            ("src/gambit.rs", r"if chance\.outcome\(\) != 0 \{\s*for \(cum, out\) in cum_pays\s*\.iter_mut\(\)\s*\.zip\(outcomes\.get\(&chance\.outcome\(\)\)\.unwrap\(\)\)"),
-            ("src/gambit.rs", r"if player\.outcome\(\) != 0 \{\s*for \(cum, out\) in cum_pays\s*\.iter_mut\(\)\s*\.zip\(outcomes\.get\(&player\.outcome\(\)\)\.unwrap\(\)\)"),
-            ("src/gambit.rs", r"sum: min \+ \(max - min\) / 2\.0,")],
+    # the constant-sum analysis (second traversal of get_global_info): per-node steps and the offset
+    # expression are under contract in unit c15_gambit_constant_sum (always run with this one)
     assumptions=[
         "BLOCK: the terminal arm of the Gambit reader's `impl IntoGameNode for JoinedNode` (src/gambit.rs); gambit-parser's terminal node and std's HashMap::get are local declarations with assumed contracts; the rest of the reader (parsing, the constant-sum analysis, the sorting of actions) is not covered",
         "idealised-real float mode for the payoff sum (operand order does not matter)",
